@@ -3,9 +3,23 @@ sys.path.insert(0, os.path.dirname(os.path.dirname(os.path.abspath(__file__))))
 import checklib
 
 
+def regen_source(ctx):
+    """Regenerates lean/Hive/Gen/C07_Src.lean: the statements of kvstore/sequence.go in source order (normalised text with
+    block markers), every top-level declaration and the imports; pinned by the C07_source_* obligations."""
+    out = os.path.join(checklib.LEAN, "Hive", "Gen", "C07_Src.lean")
+    tmp = os.path.join(ctx.scratch, "C07_Src.lean")
+    rc, log = checklib.sh(["go", "run", "./c07/srcgen", tmp, "Hive.Gen.C07Src", os.path.join(ctx.repo, "kvstore/sequence.go")],
+                          cwd=checklib.HARNESS, timeout=600)
+    if rc != 0 or not os.path.exists(tmp):
+        return [{"kind": "source-extractor", "detail": checklib.tail(log, 20)}]
+    checklib.write_gen(ctx, out, open(tmp).read())
+    return []
+
+
 def regen(ctx):
-    return checklib.regen_skeletons(ctx, ["kvstore/sequence.go:Sequence.Next", "kvstore/sequence.go:Sequence.Release",
-                                          "kvstore/sequence.go:Sequence.update", "kvstore/sequence.go:type=Sequence"], extra_methods=["Set", "Get"])
+    fails = checklib.regen_skeletons(ctx, ["kvstore/sequence.go:Sequence.Next", "kvstore/sequence.go:Sequence.Release",
+                                           "kvstore/sequence.go:Sequence.update", "kvstore/sequence.go:type=Sequence"], extra_methods=["Set", "Get"])
+    return (fails or []) + regen_source(ctx)
 
 
 SPEC = {
@@ -16,6 +30,7 @@ SPEC = {
     "harness": "c07",
     "theorems": ["C07_strictly_increasing", "C07_release_wastes_none", "C07_crash_wastes_le_interval",
                  "C07_next_returns_frontier", "C07_no_wrap", "C07_exhausted_harmless", "C07_lease_spec", "C07_old_update_wrap_witness", "C07_budget_step", "C07_store_error_harmless", "C07_frontier_step", "C07_mark_encoding_roundtrip", "C07_two_live_objects_witness", "C07_skeleton_next", "C07_skeleton_release", "C07_skeleton_update", "C07_skeleton_type_sequence",
+                 "C07_source_new", "C07_source_next", "C07_source_release", "C07_source_update", "C07_source_decls",
                  # protocol level: concurrent callers on one object (Hive/Props/C07b.lean, model Hive/Model/SeqConc.lean)
                  "C07_concurrent_mutual_exclusion", "C07_concurrent_refines_sequential", "C07_concurrent_answers_are_sequential", "C07_concurrent_strictly_increasing",
                  "C07_concurrent_no_number_twice", "C07_concurrent_crash_wastes_le_interval", "C07_concurrent_crash_step",
